@@ -47,6 +47,34 @@ def random_chain(rng, nmax):
     return {"mother": names[0], "decays": [d for d in decays if d["n"] in seen]}
 
 
+def shaped_chain(rng, shape):
+    """chains past the sizes of the random ones: "wide" = a mode with 10..14 distinct daughters (some of them decaying),
+    "deep" = a line of 12..25 decaying particles each the daughter of the one before"""
+    if shape == "wide":
+        nd = rng.randint(1, 3)
+        names = [f"p{i}" for i in range(nd)]
+        leaves = [f"l{i}" for i in range(rng.randint(10, 14))]
+        decays = []
+        for i, n in enumerate(names):
+            ds = {x: 1 for x in (leaves if i == 0 or rng.random() < 0.5 else rng.sample(leaves, 3))}
+            if i + 1 < nd:
+                ds[names[i + 1]] = 1
+            if i == 0 and rng.random() < 0.3:
+                ds[leaves[0]] = 2
+            decays.append({"n": n, "bf": "bf_" + n, "meta": "meta_" + n, "ds": sorted([k, v] for k, v in ds.items())})
+        return {"mother": names[0], "decays": decays}
+    nd = rng.randint(12, 25)
+    names = [f"p{i}" for i in range(nd)]
+    leaves = [f"l{i}" for i in range(3)]
+    decays = []
+    for i, n in enumerate(names):
+        ds = {rng.choice(leaves): 1}
+        if i + 1 < nd:
+            ds[names[i + 1]] = 1
+        decays.append({"n": n, "bf": "bf_" + n, "meta": "meta_" + n, "ds": sorted([k, v] for k, v in ds.items())})
+    return {"mother": names[0], "decays": decays}
+
+
 def build(args):
     cid, c, S, keys, seed = args
     rng = random.Random(seed)
@@ -198,7 +226,7 @@ def run(tier, seed, replay_path=None):
             args = [(i, e["c"], e["S"], e["keys"], seed * 101 + i) for i, e in enumerate(emitted)]
             # larger random chains: up to 15 decaying particles, multiplicity up to 4, random stable sets
             for j in range(6000 if deep else 600):
-                c = random_chain(rng, 15 if j % 3 == 0 else 7)
+                c = random_chain(rng, 15 if j % 3 == 0 else 7) if j % 25 else shaped_chain(rng, "wide" if j % 50 else "deep")
                 cand = [d["n"] for d in c["decays"] if d["n"] != c["mother"]]
                 S = rng.sample(cand, rng.randint(0, len(cand))) if cand and rng.random() < 0.6 else []
                 keys = [d["n"] for d in c["decays"] if d["n"] not in S]
